@@ -216,10 +216,15 @@ def read_jsonl(path):
     if not os.path.exists(path):
         return out
     with open(path) as f:
-        for line in f:
-            line = line.strip()
-            if line:
-                out.append(json.loads(line))
+        lines = [l.strip() for l in f]
+    lines = [l for l in lines if l]
+    for i, line in enumerate(lines):
+        try:
+            out.append(json.loads(line))
+        except ValueError:
+            if i == len(lines) - 1:
+                break       # a writer stopped at its time limit mid-record: the truncated last line is dropped
+            raise
     return out
 
 
@@ -236,10 +241,16 @@ def harness_gen(ctx, binp, n, seed, extra=None, procs=None):
         jobs.append((cmd, outp))
     recs = []
     with cf.ThreadPoolExecutor(max_workers=NCPU) as ex:
-        futs = [ex.submit(sh, c, None, GOENV, ctx.cfg.get("gen_timeout", 1200)) for c, _ in jobs]
+        tmo = ctx.cfg.get("gen_timeout", 1200) * (4 if ctx.tier == "thorough" else 1)
+        futs = [ex.submit(sh, c, None, GOENV, tmo) for c, _ in jobs]
         for (c, outp), fu in zip(jobs, futs):
             rc, out = fu.result()
-            if rc != 0:
+            if rc == 124:
+                # the whole generator process ran into the wall-clock limit (a slow or loaded machine; a hang inside
+                # goja is caught per case by vh.Guard and recorded as an observation): use what it produced
+                ctx.log("harness gen stopped at the %ss limit; its complete records are used" % tmo)
+                ctx.notes.append({"generator_time_limit": c[-6:]})
+            elif rc != 0:
                 ctx.log("harness gen rc=%d: %s" % (rc, out[-2000:]))
                 ctx.harness_crash = (c, rc, out[-4000:])
             recs += read_jsonl(outp)
